@@ -114,10 +114,45 @@ own object only that object (a raise ends the method with `self` as it is). -/
 /-- `range(a, b, s)` for a positive literal step `s` -/
 def rangeStep (a b s : Nat) : List Nat := (List.range ((b - a + s - 1) / s)).map fun k => a + k * s
 
-/-- a str / list / tuple of ints handed to `bitarray.extend`: every item must be the character `0` / `1` (the int 0 / 1);
-`none` = ValueError.  (bitarray also skips whitespace and `_` in a str: outside the model.) -/
-def bitsOfChars? (cs : List Nat) (c0 c1 : Nat) : Option Bits :=
-  cs.mapM fun c => if c = c0 then some false else if c = c1 then some true else none
+/-! ### argument forms of `bitarray.append / extend` and `int(str)` (a str travels as its UTF-8 bytes; the readings below are for
+ASCII text - a byte ≥ 128 is refused, which is what CPython does except for non-ASCII whitespace / digits: outside the model) -/
+
+/-- `bitarray.append(v)` for an int `v` that may be negative -/
+def bitOfInt? (v : Int) : Option Bool := if v = 0 then some false else if v = 1 then some true else none
+
+/-- `len(s)` of a str: its characters (UTF-8 continuation bytes do not count) -/
+def strLen (s : Bytes) : Nat := (s.filter fun c => c / 64 ≠ 2).length
+
+/-- ASCII whitespace as `str.isspace` / `Py_UNICODE_ISSPACE` see it -/
+def isSpace (c : Nat) : Bool := (9 ≤ c && c ≤ 13) || (28 ≤ c && c ≤ 32)
+
+/-- `bitarray.extend('..')`: `0` / `1` are bits, whitespace and `_` are skipped, anything else is a ValueError (nothing appended) -/
+def bitsOfStr? : Bytes → Option Bits
+  | [] => some []
+  | c :: cs =>
+    if c = 48 then (bitsOfStr? cs).map (false :: ·)
+    else if c = 49 then (bitsOfStr? cs).map (true :: ·)
+    else if isSpace c || c = 95 then bitsOfStr? cs
+    else none
+
+/-- `bitarray.extend([..])` for a list / tuple of ints (bools are ints): every item 0 / 1, otherwise ValueError (nothing appended) -/
+def bitsOfInts? (xs : List Int) : Option Bits := xs.mapM bitOfInt?
+
+/-- the digits of a decimal literal: single `_` only BETWEEN digits -/
+def digits? : Bytes → Bool → Nat → Option Nat      -- rest, "a digit came just before", value so far
+  | [], prev, acc => if prev then some acc else none
+  | c :: cs, prev, acc =>
+    if 48 ≤ c ∧ c ≤ 57 then digits? cs true (acc * 10 + (c - 48))
+    else if c = 95 ∧ prev then (match cs with | d :: _ => if 48 ≤ d ∧ d ≤ 57 then digits? cs false acc else none | [] => none)
+    else none
+
+/-- `int('..')`: surrounding whitespace, an optional sign, a decimal literal; `none` = ValueError -/
+def intOfStr? (s : Bytes) : Option Int :=
+  let t := ((s.dropWhile isSpace).reverse.dropWhile isSpace).reverse
+  match t with
+  | 43 :: r => (digits? r false 0).map fun n => (n : Int)
+  | 45 :: r => (digits? r false 0).map fun n => -(n : Int)
+  | r => (digits? r false 0).map fun n => (n : Int)
 
 /-- the state of a `Slice`: the bits not consumed yet, ALL references of the cell, and how many of them were consumed. -/
 structure SliceSt (R : Type) where
